@@ -67,7 +67,7 @@ def C07(ctx):
     cases = ctx.export(G(3, 'f'))
     ctx.res.cov['exhaustive'] = True
     ctx.rules.append('design level: WireAnalyze (cycle search with one shared visited set marked at pop, roots in every order) is model-checked against WireSem on these digraphs (AcyclicRefines, AcyclicWork, Termination); '
-                     'conformance: for a sample of accepted programs wire is run per package with the verif hooks and the loop-iteration counters of verifyAcyclic and solve must EQUAL the counts the WireAnalyze machine predicts')
+                     'conformance: for a sample of accepted programs wire is run per package with the verif hooks and the loop-iteration counters of verifyAcyclic and solve are compared with the counts the WireAnalyze machine predicts (reported as workpred_matches / workpred_mismatches: conformance of the model, not a verdict); the verdict uses WorkBound only')
     pred = ctx.design_analyze(cases, limit=1100 if ctx.quick else 1100, label='all digraphs n<=3 ')
     ctx.run(cases, nontrivial=cyc, runtime=False)
     acc = ctx.sample([c for c in ctx.export(G(3)) if verdict(c) == 'yes'], 60 if ctx.quick else 300)
@@ -86,7 +86,7 @@ def C07(ctx):
         ctx.run(ctx.export('FamilyGSplit(p, 4)', pre_sample=4000), nontrivial=cyc, runtime=False)
     sc = ctx.export('FamilyLattice(p, {6, 10, 20, 40})') + ctx.export('FamilyChain(p, {50, 150})')
     # one package per invocation, with the verif hooks' loop counters: iterations of the cycle search and of the planner
-    # must stay within WorkBound (linear in nodes + edges); without counters the timeout is the criterion
+    # must stay within WorkBound (quadratic in nodes + edges, far below the number of paths); without counters the timeout is the criterion
     ctx.run(sc, nontrivial=lambda c: True, runtime=False, build=False, single=True)
 
 
